@@ -44,9 +44,9 @@ def plan(tier, seed):
     q = tier == 'quick'
     specs = []
     for fam in families.FAMILY_NAMES:
-        specs.append(dict(label=fam, family=fam, histories=24 if q else 150,
+        specs.append(dict(label=fam, family=fam, histories=24 if q else 2000,
                           seed=seed, tier=tier, variant='mon',
-                          timeout=900 if q else 3000))
+                          timeout=900 if q else 7200))
     return specs
 
 
